@@ -17,7 +17,7 @@ namespace c16
   }
   // documented: d_i phi * psi  (phi = trial)
   template<int dim_> Form form_trial_deriv(int d)
-  { Form f; f.name = "trial_deriv"; f.ker_trial = true; f.smode = 21; f.du = 1; f.g = [d](const FV* U, const FV* V, const LD*) { return U[0].g[d] * V[0].v; }; return f; }
+  { Form f; f.name = "trial_deriv"; f.ker_trial = true; f.smode = 3; f.du = 1; f.g = [d](const FV* U, const FV* V, const LD*) { return U[0].g[d] * V[0].v; }; return f; }
   // documented: phi * d_i psi
   template<int dim_> Form form_test_deriv(int d)
   { Form f; f.name = "test_deriv"; f.ker_test = true; f.smode = 12; f.dv = 1; f.g = [d](const FV* U, const FV* V, const LD*) { return U[0].v * V[0].g[d]; }; return f; }
@@ -101,7 +101,7 @@ namespace c16
     else
     {
       int nk = si.parametric ? 7 : 6;
-      const int k = int(c.rng.below(std::uint64_t(nk)));
+      const int k = int(c.k % std::uint64_t(nk)); // every operator kind in every run; mesh, space and polynomials are random
       const int d1 = int(c.rng.below(dim)), d2 = int(c.rng.below(dim));
       switch(k)
       {
@@ -129,7 +129,7 @@ namespace c16
     constexpr int nsym = dim == 2 ? 3 : 6, nuns = dim * dim;
     typedef typename SD_::template S<typename Env<Shape_>::TrafoType> SpaceType;
     SpaceType space(*e.trafo);
-    switch(c.rng.below(9))
+    switch(c.k % 9)
     {
     case 0: { Assembly::Common::IdentityOperatorBlocked<dim> op; Form f = form_identity_blocked<dim>(); check_bilinear1<Shape_, SD_, BCSRd<dim, dim>>(c, e, space, op, f, true); break; }
     case 1: { Assembly::Common::LaplaceOperatorBlocked<dim> op; Form f = form_laplace_blocked<dim>(); check_bilinear1<Shape_, SD_, BCSRd<dim, dim>>(c, e, space, op, f, true); break; }
